@@ -83,6 +83,15 @@ def pool(rnd):
         lambda: ([[S("unbound-sym")]], "load"),
         lambda: ([[S("set"), Q(S("counter")), [S("+"), S("counter"), 100]], [S("car"), 5]], "load"),
         lambda: ([[S("dotimes"), [S("i"), 3], [S("inc")], [S("if"), [S("="), S("i"), 1], [S("error"), Q(S("loop-fail")), S("i")], []]]], "load"),
+        # a special operator with a scope of its own as the top-level form itself (succeeding and failing)
+        lambda: ([[S("let"), [[S("v"), [S("inc")]]], S("v")]], "load"),
+        lambda: ([[S("let*"), [[S("v"), 1], [S("w"), [S("inc")]]], [S("error"), Q(S("let-fail")), S("w")]]], "load"),
+        lambda: ([[S("let"), [[S("v"), [S("error"), Q(S("binding-fail")), 1]]], S("v")]], "load"),
+        lambda: ([[S("dotimes"), [S("i"), 2], [S("inc")]]], "load"),
+        lambda: ([[S("flet"), [[S("h"), [S("a")], [S("inc")]]], [S("h"), 1]]], "load"),
+        lambda: ([[S("labels"), [[S("h"), [S("a")], [S("if"), [S("<="), S("a"), 0], [S("inc")], [S("h"), [S("-"), S("a"), 1]]]]], [S("h"), 2]]], "load"),
+        lambda: ([[S("let"), [[S("v"), 1]], [S("inc")]]], "call"),
+        lambda: ([[S("dotimes"), [S("i"), 2], [S("inc")]]], "call"),
         # cross-package calls failing on different exit paths, handled in the same load: what follows must run in
         # the caller's package
         lambda: ([[S("handler-bind"), [[S("condition"), hnd("c", [[S("probe"), Q(S("handled")), S("c")], Q(S("h"))])]], [S("lib:lib-fail"), rnd.randrange(5)]],
